@@ -162,6 +162,18 @@ inductive Member where
   | other
   deriving Repr, Inhabited
 
+/-- girparser.c start_type, C arrays in a FIELD: `is_pointer` starts TRUE and is cleared when the array
+    has a fixed size, or when it has neither a length nor a c:type ending in `*` (`T data[];`, the
+    flexible array member as g-ir-scanner writes it) -/
+def arrayFieldIsPointer (hasSize hasLength ctypeIsPointer : Bool) : Bool :=
+  if hasSize then false
+  else if !hasLength then (if !ctypeIsPointer then false else true)
+  else true
+
+/-- the GIrNodeType start_type builds for a C array typed field (`size` is `atoi (fixed-size)`, -1 when absent) -/
+def fieldArrayTy (hasSize : Bool) (size : Int) (hasLength ctypeIsPointer : Bool) (elem : Ty) : Ty :=
+  .array (arrayFieldIsPointer hasSize hasLength ctypeIsPointer) hasSize (if hasSize then size else -1) elem
+
 /-- a member after get_field_size_alignment -/
 inductive MemberSA where
   | field (sa : SA)
@@ -242,6 +254,14 @@ structure Node where
 
 /-- `_g_ir_find_node` within the module: first entry with that name -/
 def findNode (env : List Node) (name : Str) : Option Node := env.find? (fun n => n.name == name)
+
+/-- girparser.c start_function, `<callback>` inside a `<field>`: a record or class field embeds it
+    (`field->callback`); in a union, boxed or interface the field's type becomes `gpointer`
+    (`parse_type (ctx, "gpointer")`: tag VOID, is_pointer) and the signature is skipped -/
+def inlineCallbackField (parent : NodeKind) (name : Str) : Member :=
+  match parent with
+  | .struct | .object => .field name true (.basic Gen.tagVoid false)
+  | _ => .field name false (.basic Gen.tagVoid true)
 
 /-- get_field_size_alignment for every member, in order.  The C loop stops calling it after
     the first failure; `warnPrefix` accounts for that. -/
